@@ -60,14 +60,14 @@ def near(t, thresh):
     return bool(np.any(np.abs(t[f] - thresh) < MARGIN))
 
 
-def oracle(x, y, thresh, k, tail, paired, out, trace):
+def oracle(x, y, thresh, k, tail, paired, out, trace, unordered=None):
     """returns (facts, discard_reason)"""
     pvals, adj, null = out
     n = x.shape[0]
     nx, ny = x.shape[2], y.shape[2]
     ii, jj = np.nonzero(np.triu(np.ones((n, n)), 1))
-    xm = x[ii, jj, :]
-    ym = y[ii, jj, :]
+    xm = x[ii, jj, :].astype(np.float64)
+    ym = y[ii, jj, :].astype(np.float64)
     t = tstats(xm, ym, tail, paired)
     if near(t, thresh):
         return [], 'near_threshold'
@@ -118,6 +118,35 @@ def oracle(x, y, thresh, k, tail, paired, out, trace):
             break
     # null[u] under the recorded relabelling u
     draws = [e for e in trace if e[0] in ('permutation', 'rand')]
+    if unordered is not None and len(draws) != k:
+        # relabellings could not be attributed to null positions (e.g. several permutations per pool task): every null value
+        # must at least be the largest component size under ONE of the relabellings that were drawn
+        vals = set()
+        both = np.hstack((xm, ym))
+        usable = bool(unordered)
+        for e in unordered:
+            if paired and e[0] == 'rand' and np.asarray(e[3]).size == nx:
+                sgn = np.sign(0.5 - np.asarray(e[3], dtype=float).reshape(-1))
+                d = both * np.hstack((sgn, sgn))[None, :]
+            elif (not paired) and e[0] == 'permutation' and e[1] == nx + ny:
+                d = both[:, np.asarray(e[3], dtype=int)]
+            else:
+                usable = False
+                break
+            tp = tstats(d[:, :nx], d[:, nx:], tail, paired)
+            if near(tp, thresh):
+                return v, 'near_threshold'
+            sp = np.zeros(len(tp), dtype=bool)
+            sp[np.isfinite(tp)] = tp[np.isfinite(tp)] > thresh
+            sp |= (tp == np.inf)
+            _, sz = comp_sizes(n, ii, jj, sp)
+            vals.add(max(sz.values()) if sz else 0)
+        if usable:
+            bad = [float(z) for z in null if z not in vals]
+            if bad:
+                v.append(('null', 'null value(s) %s are not the largest component size under any of the %d relabellings that were drawn (achievable: %s)' % (
+                    bad[:4], len(unordered), sorted(vals))))
+        return v, None
     if len(draws) == k:
         both = np.hstack((xm, ym))
         for u, e in enumerate(draws):
@@ -149,7 +178,7 @@ def oracle(x, y, thresh, k, tail, paired, out, trace):
 def observed(x, y, thresh, tail, paired):
     n = x.shape[0]
     ii, jj = np.nonzero(np.triu(np.ones((n, n)), 1))
-    t = tstats(x[ii, jj, :], y[ii, jj, :], tail, paired)
+    t = tstats(x[ii, jj, :].astype(np.float64), y[ii, jj, :].astype(np.float64), tail, paired)
     return t
 
 
@@ -273,7 +302,17 @@ def gen_stacks(rnd, nmax=8):
             x[a, b, s] = x[b, a, s] = round(rnd.gauss(0, 1) + effect.get((a, b), 0.0), 3)
         for s in range(ny):
             y[a, b, s] = y[b, a, s] = round(rnd.gauss(0, 1), 3)
-    return x, y, paired, {'n': n, 'nx': nx, 'ny': ny, 'effects': len(effect), 'constant_edges': len(const)}
+    dt = 'float64'
+    r = rnd.random()
+    if r < 0.25:
+        # count-like data in a narrow integer type (streamline counts): same statistics, other container
+        dt = rnd.choice(('int8', 'int16', 'uint8', 'uint16', 'int32', 'int64', 'float32'))
+        scale = {'int8': 12, 'uint8': 25, 'int16': 300, 'uint16': 300, 'int32': 60000, 'int64': 1000, 'float32': 1}[dt]
+        if dt.startswith('u'):
+            x, y = x + 4.5, y + 4.5
+        x = np.clip(np.round(x * scale) if dt != 'float32' else x, np.iinfo(dt).min if dt != 'float32' else -1e9, np.iinfo(dt).max if dt != 'float32' else 1e9).astype(dt)
+        y = np.clip(np.round(y * scale) if dt != 'float32' else y, np.iinfo(dt).min if dt != 'float32' else -1e9, np.iinfo(dt).max if dt != 'float32' else 1e9).astype(dt)
+    return x, y, paired, {'n': n, 'nx': nx, 'ny': ny, 'effects': len(effect), 'constant_edges': len(const), 'dtype': dt}
 
 
 class _Scn(object):
@@ -431,10 +470,12 @@ def execute_pool(case, mode):
             break
         e = evs[0]
         trace.append((e[0], e[1], e[2], e[4]))
+    unordered = None
     if not ok_trace:
         trace = []
-        pr['pool_relabellings_not_recorded'] = 1
-    f2, discard = oracle(x, y, p['thresh'], p['k'], p['tail'], p['paired'], out, trace)
+        pr['pool_relabellings_not_attributed'] = 1
+        unordered = [(e[0], e[1], e[2], e[4]) for rs in rec.by_task.values() for r in rs for e in r.events if e[0] in ('permutation', 'rand')]
+    f2, discard = oracle(x, y, p['thresh'], p['k'], p['tail'], p['paired'], out, trace, unordered=unordered)
     if discard and not f2:
         res['outcome'] = 'discard'
         pr['discarded_' + discard] = 1
